@@ -80,8 +80,8 @@ def check(ctx):
         mode = "classification level" if cls_mode else "state/county/district level"
         ps = signature(pred_tab, flags)
         for side in ("lower", "upper"):
-            isg = signature(tabs[side], flags)
-            _cmp_sig(ctx, nf, f"nonparametric {side} ({mode})", ps, isg)
+            for extra_, isg in am.each_valuation(lambda fl_: signature(tabs[side], fl_), flags):
+                _cmp_sig(ctx, nf, f"nonparametric {side} ({mode}){am.when(extra_)}", ps, isg)
     # gaussian
     gc = repo.cls(GM, "GaussianElectionModel")
     gf = ctx.fn(GM, "GaussianElectionModel.get_aggregate_prediction_intervals")
@@ -100,7 +100,10 @@ def check(ctx):
                 x = parts[i]
                 while x[0] == "call" and x[1][0] == "attr" and x[1][2] in ("round",):
                     x = x[1][1]
-                isg = signature(x, flags)
+                vals_ = am.each_valuation(lambda fl_: signature(x, fl_), flags)
+                for extra_, isg in vals_[1:]:
+                    _cmp_sig(ctx, gf, f"gaussian {side} ({mode}){am.when(extra_)}", ps, isg, gaussian=not early)
+                isg = vals_[0][1]
                 if early:
                     # no nonreporting units: the prediction table's universe loses its N part (empty)
                     ps2 = (frozenset(g for g in ps[0] if g[1] != N_), ps[1], ps[2])
